@@ -85,6 +85,7 @@ func (w *World) listenAddr(ls ListenerSpec) net.UDPAddr {
 type DG struct {
 	ID            int64
 	L             int // listener index
+	Port          int // socket it was queued on
 	V6            bool
 	Bytes         []byte
 	Src           net.UDPAddr
@@ -464,6 +465,7 @@ func (w *World) deliver(dg *DG) {
 		return
 	}
 	dg.Delivered = true
+	dg.Port = w.ports[dg.L]
 	dg.DeliveredAt = w.Sim.Now()
 	dg.DeliveredStep = w.Sim.Steps
 	dg.Inc = w.Inc
@@ -832,10 +834,14 @@ func (w *World) afterRun(rr simrt.RunResult) {
 	if rr.Reason == "quiescent" && !w.Sim.Stopped() {
 		// nothing is left to run: every datagram that reached a socket of the live incarnation has to be done with
 		for _, dg := range w.DGs {
-			if !dg.Delivered || dg.Handled || dg.Killed || dg.Inc != w.Inc || !w.Up() || dg.L >= len(w.ports) || w.ports[dg.L] < 0 || !w.Sim.PortOpen(w.ports[dg.L]) {
+			if !dg.Delivered || dg.Handled || dg.Killed || dg.Inc != w.Inc || !w.Up() {
 				continue
 			}
-			if len(dg.Invs) == 0 && len(dg.Replies) == 0 && w.Sim.PortBacklog(w.ports[dg.L]) > 0 {
+			queued := w.Sim.PortQueued(dg.Port, dg.ID)
+			if queued && !w.Sim.PortOpen(dg.Port) {
+				continue // the socket was closed (injected fault) before the datagram was read: lost, legitimately
+			}
+			if queued {
 				w.Violate("C01", "listener-not-served", "dg%d (%s) was delivered to listener %d %+v at t=%.3fs and is still queued on its socket with the server idle: no receive loop reads that socket", dg.ID, dg.Kind, dg.L, w.LSpecs[dg.L], float64(dg.DeliveredAt)/1e9)
 			} else {
 				w.Violate("C01", "handler-never-returns", "dg%d (%s) was read by the server but its handling never finished, and nothing is left to run", dg.ID, dg.Kind)
